@@ -12,7 +12,7 @@ from pv.pool import hx
 from pv import runner
 
 PROP = "C07"
-RULE = ("Hypothesis-generated histories (6-60 steps) of def_dim/def_var/put_att (all external types legal for the format, all 13 "
+RULE = ("Hypothesis-generated histories (6-36 steps quick, 6-60 thorough; k=1, in thorough 15% k=2) of def_dim/def_var/put_att (all external types legal for the format, all 13 "
         "memory-type APIs, 0-20 elements, overwrite smaller/equal/larger with type change)/get_att/rename_dim/rename_var/rename_att/"
         "copy_att (self, other variable, global<->variable, second open file)/del_att/inq_*id lookups by normalised and un-normalised "
         "spellings, interleaved with enddef/redef/close+open(rw|ro), on CDF-1/2/5 files created and re-opened with nc_hash_size_* hints "
@@ -734,7 +734,7 @@ def case_script(case):
 
 
 def campaign(ctx):
-    n = {"quick": 260, "thorough": 5000}[ctx.tier]
+    n = {"quick": 1200, "thorough": 7000}[ctx.tier]
     runner.run_hypothesis(ctx, case_strategy(ctx.tier), runner.guarded(run_case), n)
 
 
